@@ -1,5 +1,5 @@
 (* C05 — property theorems only. *)
-Require Import V.Lib V.C05_Model V.C05_Proofs V.C05_RetryProofs.
+Require Import V.Lib V.C05_Model V.C05_Proofs V.C05_RetryProofs V.C05_RRProofs.
 Open Scope N_scope.
 
 (* soundness: no policy ever returns an unavailable backend *)
@@ -275,3 +275,68 @@ Theorem C05_failed_hosts_skipped_until_expiry :
   skip_ok (t_mf c) (t_ft c) (fun _ => []) (snd (runT S sel c unh scr envdown fuel now fx cnt st fresh it)) = true.
 Proof. exact skip_top. Qed.
 Print Assumptions C05_failed_hosts_skipped_until_expiry.
+
+(* ================= round robin across the uint32 wrap ================= *)
+
+(* EXACT completeness for every counter value, wrap included: RoundRobin.Select returns a host iff
+   one of the n slots ((robin + k) mod 2^32) mod n, k = 1..n, is available *)
+Theorem C05_round_robin_complete_exact : forall av robin,
+  fst (rr_select av robin) <> None <->
+  exists k, (k < length av)%nat /\
+    nth (N.to_nat (((robin + 1 + N.of_nat k) mod U32) mod N.of_nat (length av))) av false = true.
+Proof. exact rr_complete_exact. Qed.
+Print Assumptions C05_round_robin_complete_exact.
+(* pool sizes that divide 2^32 (1, 2, 4, 8, ...) are complete for EVERY counter value *)
+Theorem C05_round_robin_complete_divides : forall av robin,
+  U32 mod N.of_nat (length av) = 0 ->
+  existsb (fun b => b) av = true -> fst (rr_select av robin) <> None.
+Proof. exact rr_complete_divides. Qed.
+Print Assumptions C05_round_robin_complete_divides.
+Example C05_round_robin_complete_divides_nonvacuous :
+  U32 mod 4 = 0 /\ fst (rr_select [false; false; true; false] 4294967294) = Some 2%nat.
+Proof. exact rr_wrap_pow2. Qed.
+(* any other pool size: the wrap costs at most the ONE Select that straddles it (C05_round_robin_complete_wrap_refuted);
+   the counter is then just past the wrap and the next Select finds a host *)
+Theorem C05_round_robin_miss_then_hit : forall av robin,
+  robin < U32 -> N.of_nat (length av) + N.of_nat (length av) <= U32 ->
+  existsb (fun b => b) av = true ->
+  fst (rr_select av robin) = None ->
+  U32 <= robin + N.of_nat (length av) /\
+  snd (rr_select av robin) = robin + N.of_nat (length av) - U32 /\
+  fst (rr_select av (snd (rr_select av robin))) <> None.
+Proof. exact rr_miss_then_hit. Qed.
+Print Assumptions C05_round_robin_miss_then_hit.
+Example C05_round_robin_miss_then_hit_nonvacuous :
+  fst (rr_select [false; false; true] 4294967294) = None /\
+  snd (rr_select [false; false; true] 4294967294) = 1 /\
+  fst (rr_select [false; false; true] 1) = Some 2%nat.
+Proof. exact rr_wrap_miss_hit. Qed.
+
+(* evenness, wrap included.  With all hosts up the k-th selection is slot ((robin+k) mod 2^32) mod n
+   for EVERY counter value; over a window of k*n selections (at most one wrap inside) every host is
+   chosen exactly k times if the counter does not wrap inside the window and k-1, k or k+1 times if it
+   does; when n divides 2^32 every window of n selections visits every host, also across the wrap;
+   for other sizes the window that straddles the wrap skips a host *)
+Theorem C05_round_robin_counts : forall av robin k j,
+  (0 < length av)%nat -> forallb (fun b => b) av = true -> robin < U32 ->
+  N.of_nat (k * length av) <= U32 -> (j < length av)%nat ->
+  rr_run av robin (k * length av) = map Some (rr_idxs (N.of_nat (length av)) robin (k * length av)) /\
+  let c := cnt j (rr_idxs (N.of_nat (length av)) robin (k * length av)) in
+  (k - 1 <= c <= k + 1)%nat /\ (robin + N.of_nat (k * length av) < U32 -> c = k).
+Proof. exact rr_counts_run. Qed.
+Print Assumptions C05_round_robin_counts.
+Example C05_round_robin_counts_nonvacuous :
+  rr_idxs 3 4294967293 6 = [2; 0; 0; 1; 2; 0]%nat /\
+  cnt 0 (rr_idxs 3 4294967293 6) = 3%nat /\ cnt 1 (rr_idxs 3 4294967293 6) = 1%nat.
+Proof. exact rr_counts_wrap. Qed.
+Theorem C05_round_robin_even_divides : forall av robin,
+  (0 < length av)%nat -> U32 mod N.of_nat (length av) = 0 -> forallb (fun b => b) av = true ->
+  forall j, (j < length av)%nat -> In (Some j) (rr_run av robin (length av)) /\
+  length (rr_run av robin (length av)) = length av.
+Proof. exact rr_even_divides. Qed.
+Print Assumptions C05_round_robin_even_divides.
+Theorem C05_round_robin_even_wrap_refuted :
+  exists av robin j, forallb (fun b => b) av = true /\ (j < length av)%nat /\
+    ~ In (Some j) (rr_run av robin (length av)).
+Proof. exact rr_even_wrap_refuted. Qed.
+Print Assumptions C05_round_robin_even_wrap_refuted.
